@@ -46,6 +46,9 @@ pub fn install_panic_hook() {
             .location()
             .map(|l| format!("{}:{}", l.file(), l.line()))
             .unwrap_or_default();
+        if std::env::var_os("VERIF_BACKTRACE").is_some() {
+            eprintln!("panic: {msg} @ {loc}\n{}", std::backtrace::Backtrace::force_capture());
+        }
         let _ = LAST_PANIC.try_with(|p| *p.borrow_mut() = Some(format!("{msg} @ {loc}")));
     }));
 }
